@@ -86,12 +86,13 @@ impl<B: Buffer> History<B> {
     /// Push given text to history. Text must not contain any null bytes. Otherwise
     /// text is not pushed to history and just ignored.
     pub fn push(&mut self, text: &str) {
+        // navigation is always restarted, even if text is not stored
+        self.cursor = None;
+
         // extra byte is added to text len since we need to null terminate it
         if text.as_bytes().contains(&0) || text.len() + 1 > self.buffer.len() || text.is_empty() {
             return;
         }
-
-        self.cursor = None;
 
         // check if duplicate is given, then we should remove it first
         // this is a bit slower than manually comparing all bytes, but easier to write
